@@ -94,6 +94,9 @@ func NewRedisCache(u string, logger *zerolog.Logger) (*RedisCache, error) {
 		Help:    "The PING cmd latency in millisecond",
 		Buckets: []float64{1, 5, 10, 20},
 	})
+	// The client has just connected to the server. Do not wait for the first
+	// ping (one second from now) to start using it.
+	c.connected.Store(true)
 	go c.setLoop()
 	go c.pingLoop()
 	return c, nil
